@@ -452,15 +452,17 @@ def op_regenerate(case, rec, k, term, new_args=None, tags="nochange"):
     if new is None:
         return None, w, rd, bwd, issues
     old_live, new_live = rec.live(), new.live()
+    vol = volatile_paths(case, tags, {}) if tags != "nochange" else set()
     changed = 0
     for p in old_live & new_live:
         same = _same_value(new.assign[p], rec.assign[p])
         if not same:
             changed += 1
-            if not obs.sel_contains(term, obs.static_of(p)):
-                issues.append(Issue("regen.unselected", f"unselected {p} changed {_d(rec.assign[p])} -> {_d(new.assign[p])}"))
+            if not obs.sel_contains(term, obs.static_of(p)) and p not in vol:
+                issues.append(Issue("regen.unselected", f"unselected {p} changed {_d(rec.assign[p])} -> {_d(new.assign[p])}", "args-changed" if new_args is not None else ""))
     exp_w = new.env.score() - rec.env.score()
-    if np.isfinite(exp_w) and not close(w, exp_w, terms=max(1, len(new_live) + len(old_live))):
+    introduces = any(p not in old_live or p in vol for p in new_live)
+    if np.isfinite(exp_w) and not (introduces and new_args is not None) and not close(w, exp_w, terms=max(1, len(new_live) + len(old_live))):
         issues.append(Issue("regen.weight", f"weight {w} vs new score - old score {exp_w}"))
     new.changed = changed
     return new, w, rd, bwd, issues
